@@ -7,7 +7,9 @@ import (
 	"encoding/hex"
 	"fmt"
 	"os"
+	"strconv"
 	"strings"
+	"time"
 )
 
 type handler func(line string) string
@@ -39,6 +41,16 @@ func guard(f func() string) (out string) {
 		}
 	}()
 	return f()
+}
+
+// watchdog returns the time limit of one call: sec seconds, multiplied by VERIF_WATCHDOG_X when a case that
+// exceeded the limit is run again on its own (a loaded machine must not be taken for a hang).
+func watchdog(sec int) time.Duration {
+	x := 1
+	if v, err := strconv.Atoi(os.Getenv("VERIF_WATCHDOG_X")); err == nil && v > 0 {
+		x = v
+	}
+	return time.Duration(sec*x) * time.Second
 }
 
 func main() {
